@@ -687,3 +687,100 @@ def _check_byref_next(ctx, R, adt, b, key):
             R.viol(key + ":fallback", b.where(Loc(rb, 0)), "the value returned by next() does not combine main.next() with a fallback that polls the old side "
                    "(main: %s, old polls: %d)" % (has_main, len(old_polls)))
     return res
+
+
+# ---------------------------------------------------------------------------
+# B-empty: is_empty() is exactly "no element in either table"
+# ---------------------------------------------------------------------------
+def rule_b_empty(ctx):
+    R = RuleResult("B-empty", "is_empty() answers exactly `main.len() + old.len() == 0` in every resize state (also with an emptied old table still installed): "
+                   "its paths are enumerated symbolically and evaluated for every combination of (old table absent / present, main length, old length) "
+                   "over a small range; the answer never depends on anything else")
+    from rules_cost import entry_points
+    from rules_size import PathExec
+    from rules_typestate import N as N_, S as S_
+    import sizeexpr as sx
+    eps = entry_points(ctx)
+    checked = 0
+    for name in ("HashMap::is_empty",):
+        b = eps.get(name)
+        if b is None:
+            R.anchor("entry:%s" % name, "entry point %s no longer exists" % name)
+            continue
+        # follow pure delegation (`self.table.is_empty()`, `self.len() == 0` is handled symbolically below)
+        hops = 0
+        while hops < 4:
+            cs = [c for c in ctx.calls(b) if not b.is_cleanup(c.loc.bb)]
+            if len(cs) == 1 and cs[0].local_callee() is not None and cs[0].dest is not None and cs[0].dest["local"] == 0 and not cs[0].dest["proj"] \
+                    and ctx.facts.types[cs[0].local_callee().locals[0]["ty"]].get("k") == "bool":
+                b = cs[0].local_callee()
+                hops += 1
+                continue
+            break
+        key = "%s:%s" % (name, b.path)
+        outcomes = []     # (left state, constraints, returned expression)
+        bad = None
+        for rb in b.return_blocks():
+            pe = PathExec(ctx, b)
+            paths = pe.run(rb)
+            if pe.incomplete:
+                bad = "cannot enumerate the paths of %s (%s)" % (b.path, pe.incomplete)
+                break
+            for p in paths:
+                outcomes.append((p["state"]["left"], p["state"]["cmps"], p["env"].get(0), p["trail"]))
+        if bad is None and not outcomes:
+            bad = "no returning path found in %s" % b.path
+
+        def ev(e, asg):
+            k = e[0]
+            if k == "const":
+                return e[1]
+            if k == "var":
+                nm = e[1].split("@")[0]
+                if nm == "oz":
+                    return asg["o"] if asg["left"] == S_ else 0
+                if nm in asg:
+                    return asg[nm]
+                raise KeyError(e[1])
+            if k in ("add", "sub", "mul"):
+                a, c_ = ev(e[1], asg), ev(e[2], asg)
+                return a + c_ if k == "add" else a - c_ if k == "sub" else a * c_
+            if k == "cmp":
+                a, c_ = ev(e[2], asg), ev(e[3], asg)
+                return {"Eq": a == c_, "Ne": a != c_, "Lt": a < c_, "Le": a <= c_, "Gt": a > c_, "Ge": a >= c_}[e[1]]
+            raise KeyError(str(e)[:60])
+        if bad is None:
+            for left in (N_, S_):
+                for m in range(3):
+                    for o in (range(3) if left == S_ else [0]):
+                        asg = {"left": left, "m": m, "o": o}
+                        answers = set()
+                        for lf, cmps, val, trail in outcomes:
+                            if lf in (N_, S_) and lf != left:
+                                continue
+                            try:
+                                if not all(ev(("cmp", op, a, c_), asg) == truth for op, a, c_, truth in cmps):
+                                    continue
+                                if val is None:
+                                    raise KeyError("no return value")
+                                answers.add(bool(ev(val, asg)))
+                            except KeyError as e:
+                                bad = "the answer of %s depends on something other than the two lengths (%s)" % (b.path, e)
+                                break
+                        if bad:
+                            break
+                        want = (m + o == 0)
+                        if answers != {want}:
+                            bad = "with the old table %s, main length %d%s, %s answers %s (expected %s)" % (
+                                "absent" if left == N_ else "installed", m, "" if left == N_ else " and old length %d" % o, b.path,
+                                sorted(answers) if answers else "nothing (no feasible path)", want)
+                            break
+                    if bad:
+                        break
+                if bad:
+                    break
+        checked += 1
+        R.inst(entry=name, decided_in=b.path, paths=len(outcomes), verdict="ok" if not bad else "VIOLATION")
+        if bad:
+            R.viol(key, b.where(Loc(0, 0)), "%s: %s" % (name, bad))
+    return R
